@@ -94,7 +94,7 @@ def run(ctx):
                            "anti_join_is_except_on_null_free_rows", "except_rewrite_null_counterexample", "group_take_one_keys_unique",
                            "pluck_is_sequential_placement", "pluck_keeps_a_stale_sort", "push_places_like_pushK", "assemble_places_like_pushK",
                            "stages_leave_only_placeable_transforms", "real_splitter_cuts_a_suffix", "real_splitter_refines_table_scan",
-                           "real_splitter_respects_clause_order", "table_block_has_at_most_one_aggregate", "real_block_has_at_most_one_aggregate", "prune_keeps_what_is_mentioned_behind", "joined_condition_means_all_filters"])
+                           "real_splitter_respects_clause_order", "table_block_has_at_most_one_aggregate", "real_block_has_at_most_one_aggregate", "prune_keeps_what_is_mentioned_behind", "joined_condition_means_all_filters", "distinct_over_the_partition_is_the_group_take_projected"])
     ctx.rule = ("random well-scoped programs of the relational core (from/select/derive/filter/sort/take/aggregate/group/join/append, "
                 "let tables, 1-7 transforms) with resolved positional form for the Lean reference semantics, x random database instances "
                 "(0-7 rows, NULLs, duplicates, empty tables); the real SQL is executed on SQLite and compared with Model.Rel.evalSrc as a "
